@@ -154,6 +154,14 @@ func (r *c12ptRec) snapshot() c12ptSnap {
 }
 
 func c12ptStateObs(list []c12ptEntry, tabs map[int]int) string {
+	if len(list) > 32 || len(tabs) > 32 {
+		fs, bs := "None", "None"
+		if len(list) > 0 {
+			f, b := list[0], list[len(list)-1]
+			fs, bs = fmt.Sprintf("(Some (%d%%N, %d%%N))", f.uid, f.exp), fmt.Sprintf("(Some (%d%%N, %d%%N))", b.uid, b.exp)
+		}
+		return fmt.Sprintf("OSumm %d%%N %s %s %d%%N", len(list), fs, bs, len(tabs))
+	}
 	ls := make([]string, 0, len(list))
 	for _, e := range list {
 		ls = append(ls, fmt.Sprintf("(%d%%N, %d%%N)", e.uid, e.exp))
@@ -558,12 +566,12 @@ func c12ptDirected(id int) (string, []c12ptAct) {
 		// bursts at one instant
 		for b := 0; b < 3; b++ {
 			at := time.Duration(b) * 25 * c12ms
-			for i := 0; i < 10; i++ {
+			for i := 0; i < 20; i++ {
 				p = append(p, c12ptAct{at: at, kind: 0, validity: 30 * c12ms})
 			}
-			p = append(p, c12ptAct{at: at + 1*c12ms, kind: 1, target: b * 10})
+			p = append(p, c12ptAct{at: at + 1*c12ms, kind: 1, target: b * 20})
 		}
-		p = append(p, c12ptAct{at: 100 * c12ms, kind: 1, target: 29})
+		p = append(p, c12ptAct{at: 100 * c12ms, kind: 1, target: 59})
 		return "bursts of registrations", p
 	case 5:
 		// a repeated UID (model only: the expiry of the first registration deletes the second one's table)
